@@ -16,6 +16,9 @@ func init() {
 }
 
 func c06(c *Ctx) {
+	// the digest verified against must be a pure function of the body (a cached or partial digest would keep
+	// signatures valid after the body changed)
+	c04readsOn(c, c.Node(), "C06.digest")
 	c.R.Trust("go/types + go/ssa", "crypto.Ecrecover returns a 65-byte public key on success; Keccak256 returns 32 bytes")
 	c.R.Assumption("cryptographic soundness of Ecrecover is trusted", "nil *Signature elements are not produced by Unmarshal (every element is a fresh literal)")
 	c06verify(c, c.Node(), pkgVAA, "C06", "node")
@@ -305,8 +308,100 @@ func c06verify(c *Ctx, p *load.Program, pkgPath, prefix, tag string) {
 		R.Check(prefix+".accept-guards", R.Key(prefix+".accept-guards", "VerifySignatures", "return-true:"+tag), c.rel(p.Pos(instrPos(r))), "acceptance is reachable only through the loop's normal exit (all signatures examined)", okExit, "an accepting return bypasses the loop exit")
 	})
 	R.Check(prefix+".accept-guards", key("accept-guards")+"/single-accept", pos, "exactly one accepting return", nTrue == 1, fmt.Sprintf("%d accepting returns", nTrue))
+	// distinct signers: needed for guardian lists that repeat an address
+	c06distinct(c, p, fn, outer, prefix, tag, isRecAddr)
 	// no-panic: index/slice obligations
 	c06noPanic(c, p, fn, prefix, tag, addresses, rec, isSigIndex)
+}
+
+// c06distinct: no guardian is counted twice even when the address list repeats an address. Accepted idiom:
+// an accumulator slice that receives the recovered address in every completed iteration, scanned by an
+// inner range loop that returns false on equality before the append.
+func c06distinct(c *Ctx, p *load.Program, fn *ssa.Function, outer *facts.Loop, prefix, tag string, isRecAddr func(ssa.Value) bool) {
+	R := c.R
+	key := R.Key(prefix+".accept-guards", "VerifySignatures", "distinct-signers:"+tag)
+	pos := c.rel(p.Pos(fn.Pos()))
+	// accumulator: a phi in the outer header whose web contains append(acc, [recovered address])
+	var acc *ssa.Phi
+	var app *ssa.Call
+	for _, ins := range outer.Header.Instrs {
+		ph, ok := ins.(*ssa.Phi)
+		if !ok {
+			continue
+		}
+		for _, leaf := range phiLeaves(ph) {
+			if ap := asCall(leaf, "append"); ap != nil && inPhiWeb(ph, ap.Call.Args[0]) {
+				if el := singleVararg(ap.Call.Args[1]); el != nil && isRecAddr(el) {
+					acc, app = ph, ap
+				}
+			}
+		}
+	}
+	if acc == nil {
+		R.Fail(prefix+".accept-guards", key, pos, "no guardian is counted twice (lists with repeated addresses)", "no accumulator of accepted signer addresses found: with a guardian list that contains the same address at two positions, the same key can sign at both and be counted twice")
+		return
+	}
+	// the append happens in every completed iteration
+	body := outer.Body()
+	everyIter := true
+	for _, lt := range outer.Latches {
+		cuts := facts.Cuts{}
+		// remove the append's block: latch must become unreachable from the header within the loop
+		reach := map[*ssa.BasicBlock]bool{}
+		st := []*ssa.BasicBlock{outer.Header}
+		for len(st) > 0 {
+			b := st[len(st)-1]
+			st = st[:len(st)-1]
+			if reach[b] || b == app.Block() || !body[b] {
+				continue
+			}
+			reach[b] = true
+			for _, s := range b.Succs {
+				if s != outer.Header {
+					st = append(st, s)
+				}
+			}
+		}
+		_ = cuts
+		if reach[lt] {
+			everyIter = false
+		}
+	}
+	// inner scan: a loop inside the outer body ranging over the accumulator, whose every completed iteration has elem != addr
+	scanOK := false
+	for _, l := range facts.LoopsOf(fn) {
+		if l.Header == outer.Header || !body[l.Header] {
+			continue
+		}
+		// range bound is len(acc-web)
+		iff, ok := l.Header.Instrs[len(l.Header.Instrs)-1].(*ssa.If)
+		if !ok {
+			continue
+		}
+		bo, ok := iff.Cond.(*ssa.BinOp)
+		if !ok || lenOf(bo.Y) == nil || !inPhiWeb(acc, lenOf(bo.Y)) && lenOf(bo.Y) != ssa.Value(acc) {
+			continue
+		}
+		for _, f := range l.IterationFacts(nil) {
+			x, op, y, ok := cmpOf(f)
+			if ok && op == token.NEQ && (isRecAddr(x) || isRecAddr(y)) {
+				scanOK = true
+			}
+		}
+		// the append is reachable only through the scan loop's exit
+		var exit []facts.Edge
+		ib := l.Body()
+		for k, s := range l.Header.Succs {
+			if !ib[s] {
+				exit = append(exit, facts.Edge{B: l.Header.Index, K: k})
+			}
+		}
+		if scanOK && !(len(exit) == 1 && facts.PassesAny(app.Block(), nil, exit...)) {
+			scanOK = false
+		}
+	}
+	R.Check(prefix+".accept-guards", key, pos, "every accepted signer address is recorded and compared with all previously accepted ones before the next is accepted (no guardian counted twice, also for lists with repeated addresses)", everyIter && scanOK,
+		fmt.Sprintf("recorded in every iteration=%v; full scan of earlier signers before recording=%v", everyIter, scanOK))
 }
 
 func c06noPanic(c *Ctx, p *load.Program, fn *ssa.Function, prefix, tag string, addresses ssa.Value, rec *ssa.Call, isSigIndex func(ssa.Value) bool) {
